@@ -51,7 +51,7 @@ Definition decompress_predictor (data : bytes) (params : option dict) : res byte
       let pixels_per_row := Z.to_N (Z.max COLUMNS_MIN (get_int p K_COLUMNS COLUMNS_DEFAULT)) in
       let colors := Z.to_N (Z.max COLORS_MIN (get_int p K_COLORS COLORS_DEFAULT)) in
       let bits := Z.to_N (Z.max BITS_MIN (get_int p K_BITS BITS_DEFAULT)) in
-      if (USIZE_MAX <? colors * bits)%N then Panic           (* colors * bits overflows usize *)
+      if (USIZE_MAX <? colors * bits)%N then Err EIoOther    (* colors.checked_mul(bits) fails: InvalidInput *)
       else decode_frame data (colors * bits / 8)%N pixels_per_row
     else Ok data
   end.
